@@ -34,6 +34,9 @@ META = {
     "C18": dict(engine="fiberx", technique="runtime monitoring: confirmed/maybe holder shadow state, justified-failure rule, virtual-clock deadline check, deadlock detection over seeded fiber schedules",
                 text="Held on the executions explored: 2-5 fibers x random op sequences on each of the six lock types; condition_variable wait/wait_for/wait_until with and without predicate against notify_one/all; thread join and per-fiber thread-local pointers.",
                 note="Fiber backend only (the THREAD backend wraps the real std types).", ref="DESIGN.md §3 C18"),
+    "C19": dict(engine="atomdiff", technique="runtime monitoring: lock-step differential execution against std::atomic (reference model) with UBSan, random sequences + exhaustive 8-bit single operations + spurious-failure contract, FIBER and THREAD backends",
+                text="Held on the executions explored: every operation C19 lists x T in {bool, (u)int8..64, int*, float, double} x boundary/random operands x random memory orders; the 8-bit single-operation space is enumerated completely.",
+                note="std::atomic of libstdc++ is the trusted reference; NaN results of arithmetic compare equal regardless of sign/payload.", ref="DESIGN.md §3 C19"),
 }
 
 ALL = ["C%02d" % i for i in range(1, 21)]
